@@ -272,7 +272,7 @@ def unit_deref(eng, callee, a, m, fc):
     return Ref(lambda: r.get()[0])
 
 
-@ext(r'(?:^|::)Unit::<.*>::(\w+)$|^base::unit::<impl Unit<.*>>::(\w+)$|^<Unit<.*>>::(\w+)$')
+@ext(r'(?:^|::)Unit::<.*>::(\w+)$|^base::unit::<impl Unit<.*>>::(\w+)$|^<Unit<.*>>::(\w+)$|(?:^|::)geometry::\w+::<impl (?:[\w:]+::)?Unit<.*>>::(\w+)$')
 def unit_method(eng, callee, a, m, fc):
     name = next(g for g in m.groups() if g)
     if name in ('new_normalize', 'new_and_get', 'try_new'):
